@@ -134,7 +134,14 @@ def run(chk, facts, tier):
     # handle comparison form (collect_primary_services)
     for fn in variants(facts, 'bluetoe::details::collect_primary_services::each', chk):
         em = fn.body.calls('read_primary_service_response')
-        ok = len(em) == 1 and any(op == '<=' and not isinstance(l, int) and strip_casts(l).is_call('handle_by_index') and is_name(strip_casts(l).args()[0], 'index_') and not isinstance(r, int) and dim(r) == 'H' for l, op, r in guard_atoms(fn, em[0]))
+        def bounded(l, op, r):
+            if isinstance(l, int) or isinstance(r, int):
+                return False
+            for a, o, b in ((l, op, r), (r, SWAP[op], l)):       # either operand order
+                if o == '<=' and strip_casts(a).is_call('handle_by_index') and is_name(strip_casts(a).args()[0], 'index_') and dim(b) == 'H':
+                    return True
+            return False
+        ok = len(em) == 1 and any(bounded(l, op, r) for l, op, r in guard_atoms(fn, em[0]))
         chk.instance('end-handle-mapping', fn, 'handle_by_index(index_) <= ending_handle_', ok, '' if ok else 'Read By Group Type does not bound the reported services by the ending handle', key='collect_primary_services::each')
 
     # ---- (2) dimension typing
